@@ -820,6 +820,23 @@ inline fp_type fast_atof (const char *p)
 }
 
 //----------------------------------------------------------------------------------------
+/*! Count the fraction digits of a plain decimal text so that a decoded floating point field
+    re-encodes with the digits it was received with.
+  \param p source string
+  \param least smallest value to return
+  \return number of digits after the decimal point, but at least 'least' */
+inline int fraction_digits(const char *p, const int least)
+{
+	while (*p && *p != '.')
+		++p;
+	int cnt(0);
+	if (*p)
+		for (++p; isdigit(*p); ++p)
+			++cnt;
+	return cnt > least ? cnt : least;
+}
+
+//----------------------------------------------------------------------------------------
 /// Convert double to ascii
 /*! \param value the source value
     \param str the target string
